@@ -226,14 +226,14 @@ TokenEqualModuloNorm(kind, a, b, fms, MLEq(_, _)) ==
   \/ kind \in WordKinds /\ FoldSeq(a) \in KeywordWords /\ FoldSeq(a) = b
   \/ kind \in DirectiveKinds /\ Len(a) = Len(b) /\
         LET rng == DirNameRange(a) IN
-        \A k \in 1..Len(a) : IF k >= rng[1] /\ k <= rng[2] THEN Up(a[k]) = b[k] ELSE a[k] = b[k]
+        \A k \in 1..Len(a) : IF k >= rng[1] /\ k <= rng[2] THEN b[k] \in {a[k], Up(a[k])} ELSE a[k] = b[k]
   \/ kind \in {"Comment(InlineLine)", "Comment(IndividualLine)"} /\ b \in LineCommentForms(a)
   \/ kind = "TextLiteral(MultiLine)" /\ fms /\ MLEq(a, b)
 
 C02_Violations(r, MLEq(_, _)) ==
   IF Len(r.tin) # Len(r.tout) THEN {"token_count"}
   ELSE LET ta == TokTexts(r.in, r.tin)  tb == TokTexts(r.out, r.tout) IN
-       (IF \E i \in 1..Len(r.tin) : r.tin[i][3] # r.tout[i][3] THEN {"kind"} ELSE {})
+       (IF \E i \in 1..Len(r.tin) : r.tin[i][3] # r.tout[i][3] THEN {"kind"} ELSE {})        \* (incl. the comment-after-lone-CR case, a known finding)
        \cup (IF \E i \in 1..Len(r.tin) : r.tin[i][3] = r.tout[i][3] /\ r.tin[i][3] # "Eof"
                     /\ ~TokenEqualModuloNorm(r.tin[i][3], ta[i], tb[i], r.cfg.fms, MLEq) THEN {"text"} ELSE {})
 
@@ -290,6 +290,10 @@ C02_IdentsKept(r) ==
         \/ r.idents[k] + 1 > Len(pa)
         \/ ta[pa[r.idents[k] + 1]] = tb[pb[r.idents[k] + 1]]
         \/ FoldSeq(ta[pa[r.idents[k] + 1]]) \in Portability
+        \* a name next to a comment or directive is exempt too (the parser decides by the neighbouring token)
+        \/ LET i == pa[r.idents[k] + 1]
+               special(j) == j >= 1 /\ j <= Len(r.tin) /\ (r.tin[j][3] \in CommentKinds \/ r.tin[j][3] \in DirectiveKinds)
+           IN special(i - 1) \/ special(i + 1)
 
 ---------------------------------------------------------------------------
 (* C07: verbatim regions (code point ranges <<from, to>> of the input, 0-based half-open) occur in the output *)
